@@ -192,6 +192,15 @@ def gen_case(rng, tier, est=None, seeded=None):
         if len(fits) >= 2:
             ops.insert(fits[1], {"op": "unrelated_fit", "what": "featchunk",
                                  "seed": rng.randint(0, 1000)})
+    if est == "gmm_kminit" and rng.random() < 0.4:
+        # the k-means trainer is one object shared by the target and its siblings, which are
+        # configured differently (fewer / more EM steps, other switches)
+        case["shared_km"] = True
+        case["cfg"]["km_iter"] = rng.randint(1, 4)
+        for o in ops:
+            if o["op"] == "sibling_fit":
+                o["cfg_delta"] = {"steps": rng.choice([1, 1, 2, 6]), "uv": rng.random() < 0.5,
+                                  "uw": rng.random() < 0.5}
     if est in ("isv_array", "jfa_array") and rng.random() < 0.3:
         # the machine trains its own UBM (ubm=None, ubm_kwargs=...): one configuration dict is
         # shared by every estimator of the history (a seed sweep); the UBM's seeded k-means
@@ -310,8 +319,11 @@ def _fit(case, o, rec, label):
                   update_variances=cfg["uv"], update_weights=cfg["uw"], random_state=cfg["rs"])
         if est == "gmm_kminit":
             init = cfg["init_method"] if cfg["seeded"] else A(cfg["init"])
-            km = KMeansMachine(cfg["k"], init_method=init, max_iter=2, convergence_threshold=None,
-                               random_state=cfg["rs"])
+            km = KMeansMachine(cfg["k"], init_method=init, max_iter=cfg.get("km_iter", 2),
+                               convergence_threshold=None, random_state=cfg["rs"])
+            if case.get("shared_km") and not case.get("_pristine"):
+                # one k-means trainer object configured once and handed to every GMM
+                km = _KEEP.setdefault("km", km)
             g = GMMMachine(cfg["k"], k_means_trainer=km, **kw)
             g.variance_thresholds = cfg["vfloor"]
         else:
@@ -438,6 +450,7 @@ def run_case(case, replay=None):
     rec.probe("same_estimator_object_refitted", bool(case.get("reuse_obj")))
     rec.probe("own_ubm_from_shared_ubm_kwargs", bool(case.get("own_ubm")))
     rec.probe("integer_grid_data_with_exact_ties", bool(case.get("grid")))
+    rec.probe("k_means_trainer_object_shared_with_siblings", bool(case.get("shared_km")))
     if "X" in case:
         s = float(np.abs(A(case["X"])).max()) or 1.0
     else:
@@ -456,7 +469,7 @@ def run_case(case, replay=None):
         if not np.isfinite(cond) or cond > 1e6:
             return Result.skip("ill-conditioned", **rec.fields())
     results = []  # (op index, pres, backend, params, perm, sigma)
-    if case.get("own_ubm"):
+    if case.get("own_ubm") or case.get("shared_km"):
         # the reference: the target trained on its own, with containers nobody else has seen
         i0 = next(i for i, o in enumerate(case["ops"]) if o["op"] == "fit")
         try:
@@ -499,6 +512,8 @@ def run_case(case, replay=None):
                     sib["reuse_obj"] = False
                     if "rs" in o:
                         sib["cfg"] = dict(case["cfg"], rs=o["rs"])
+                    if "cfg_delta" in o:
+                        sib["cfg"] = dict(sib["cfg"], **o["cfg_delta"])
                     try:
                         _fit(sib, dict(o, pres="identity"), rec, f"op{i}")
                     except HarnessError:
